@@ -32,6 +32,9 @@ func (g *Glyph) encodeCharString(defaultWidth, nominalWidth float64) ([]byte, er
 	var header [][]byte
 	w := g.Width
 	if w != defaultWidth {
+		if !isEncodable(w - nominalWidth) {
+			return nil, errNumberRange
+		}
 		x := encodeNumber(w - nominalWidth)
 		header = append(header, x.Code)
 	}
@@ -72,6 +75,9 @@ func (g *Glyph) encodeCharString(defaultWidth, nominalWidth float64) ([]byte, er
 			stems = stems[2*k:]
 			prev := 0.0
 			for _, x := range chunk {
+				if !isEncodable(x - prev) {
+					return nil, errNumberRange
+				}
 				header = append(header, encodeNumber(x-prev).Code)
 				prev = x
 			}
@@ -87,7 +93,10 @@ func (g *Glyph) encodeCharString(defaultWidth, nominalWidth float64) ([]byte, er
 		}
 	}
 
-	data := encodePaths(g.Cmds)
+	data, err := encodePaths(g.Cmds)
+	if err != nil {
+		return nil, err
+	}
 
 	k := 0
 	for _, b := range header {
@@ -107,10 +116,13 @@ func (g *Glyph) encodeCharString(defaultWidth, nominalWidth float64) ([]byte, er
 	return code, nil
 }
 
-func encodePaths(commands []GlyphOp) [][]byte {
+func encodePaths(commands []GlyphOp) ([][]byte, error) {
 	var res [][]byte
 
-	cmds := encodeArgs(commands)
+	cmds, err := encodeArgs(commands)
+	if err != nil {
+		return nil, err
+	}
 
 	for len(cmds) > 0 {
 		switch cmds[0].Op {
@@ -148,10 +160,10 @@ func encodePaths(commands []GlyphOp) [][]byte {
 	}
 	res = append(res, t2endchar.Bytes())
 
-	return res
+	return res, nil
 }
 
-func encodeArgs(cmds []GlyphOp) []enCmd {
+func encodeArgs(cmds []GlyphOp) ([]enCmd, error) {
 	res := make([]enCmd, len(cmds))
 
 	var posX float64
@@ -190,8 +202,14 @@ func encodeArgs(cmds []GlyphOp) []enCmd {
 		default:
 			panic("unhandled command")
 		}
+
+		for _, arg := range res[i].Args {
+			if arg.Code == nil {
+				return nil, errNumberRange
+			}
+		}
 	}
-	return res
+	return res, nil
 }
 
 func encodeSubPath(cmds []enCmd) [][]byte {
@@ -483,8 +501,23 @@ func (x encodedNumber) String() string {
 	return fmt.Sprintf("%g (% x)", x.Val, x.Code)
 }
 
+// isEncodable returns true if x can be represented as a Type 2 charstring
+// operand, i.e. if x rounds to a 16.16 fixed point number.
+func isEncodable(x float64) bool {
+	y := math.Round(x * 65536)
+	return y >= math.MinInt32 && y <= math.MaxInt32 // false for NaN
+}
+
+var errNumberRange = errors.New("cff: number out of range for Type 2 charstring")
+
 // encodeNumber encodes the given number into a CFF encoding.
+// If the number is outside the range of Type 2 operands, the Code field
+// of the result is nil.
 func encodeNumber(x float64) encodedNumber {
+	if !isEncodable(x) {
+		return encodedNumber{Val: x}
+	}
+
 	var code []byte
 
 	// TODO(voss): consider using t2dup here.
